@@ -15,23 +15,25 @@ TB = "pandapipes.toolbox"
 CR = "pandapipes.create"
 
 EXPLANATION = (
-    "The reference schema is derived from the repository: a column is junction-typed if it is one of a branch "
-    "component's from_to_node_cols, the `junction` column of a node element or `controlled_junction`; it is "
-    "polymorphic if the creating function validates the parameter stored in it against different tables depending on "
-    "a sibling parameter (create_valve checks `element` against net.pipe.index under et == 'pi' and against the "
-    "junctions under et == 'ju'). (R17.1) every function of toolbox.py that iterates element_junction_tuples and reads "
-    "or writes net[element][column] must restrict those accesses with a row mask obtained from a discriminator helper "
-    "that tests the discriminator column against the junction value ('ju'); the pipe branch of reindex_elements "
-    "rewrites valve.element under et == 'pi'. (R17.2) drop_junctions cascades to drop_elements_at_junctions, drop_pipes "
-    "removes the valves attached to the dropped pipes, and every drop / reindex of a table also treats its res_ and "
-    "_geodata tables; in fuse_junctions the junction the references are redirected to is removed (set difference) from the "
-    "collection that is dropped afterwards, and the redirection precedes the drop. (R17.3) the static component list of element_junction_tuples covers every node-element and branch "
-    "component class of the package, and the special junction columns equal the schema's extra junction columns. "
-    "(R17.4) each index is renumbered once: the tables whose index reindex_elements rewrites together with the element "
-    "(computed: res_<element>, <element>_geodata) are excluded from the direct renumbering in "
-    "create_continuous_elements_index, otherwise the element's lookup of old labels is applied to an already "
-    "renumbered index depending on set iteration order. Not "
-    "decided: equality of results up to relabelling (runtime).")
+    "The reference schema is derived from the repository: a column is junction-typed if it is one of a branch component's"
+    ' from_to_node_cols, the `junction` column of a node element or `controlled_junction`; it is polymorphic if the '
+    'creating function validates the parameter stored in it against different tables depending on a sibling parameter '
+    "(create_valve checks `element` against net.pipe.index under et == 'pi' and against the junctions under et == 'ju'). "
+    '(R17.1) every function of toolbox.py that iterates element_junction_tuples and reads or writes net[element][column] '
+    'must restrict those accesses with a row mask obtained from a discriminator helper that tests the discriminator '
+    "column against the junction value ('ju'); the pipe branch of reindex_elements rewrites valve.element under et == "
+    "'pi'. (R17.2) drop_junctions cascades to drop_elements_at_junctions, drop_pipes removes the valves attached to the "
+    'dropped pipes, and every drop / reindex of a table also treats its res_ and _geodata tables; in fuse_junctions the '
+    'junction the references are redirected to is removed (set difference) from the collection that is dropped '
+    'afterwards, and the redirection precedes the drop. (R17.3) the static component list of element_junction_tuples '
+    'covers every node-element and branch component class of the package, and the special junction columns equal the '
+    "schema's extra junction columns. (R17.4) each index is renumbered once: the tables whose index reindex_elements "
+    'rewrites together with the element (computed: res_<element>, <element>_geodata) are excluded from the direct '
+    "renumbering in create_continuous_elements_index, otherwise the element's lookup of old labels is applied to an "
+    "already renumbered index depending on set iteration order. (R17.5) select_subnet's fresh-net arm carries the "
+    'configuration the solver reads: fluid, user_pf_options, component_list and std_types are each copied from the source'
+    ' net (member of the copied parameter list, or an explicit deep copy). Not decided: equality of results up to '
+    'relabelling (runtime).')
 ASSUMPTIONS = ["pandapower.auxiliary.get_indices maps every value through the lookup", "DataFrame.drop / .loc semantics"]
 TECHNIQUE = "schema derivation from create functions and component classes; guarded-access check over consumers of the reference map"
 
